@@ -22,6 +22,12 @@ pub enum Step {
   Clone,
   /// clone, observe the clone, continue on the original
   CloneObserve(Obs),
+  /// keep a clone alive beside the current object (a second object derived from the first; both go on living)
+  Fork,
+  /// replace/insert on the kept clone
+  MutSide(ReplT, bool),
+  /// observe the kept clone
+  ObsSide(Obs),
 }
 #[derive(Clone, Debug, Hash)]
 pub struct ReplHist { pub inner: String, pub original: bool, pub steps: Vec<Step> }
@@ -52,12 +58,24 @@ fn src_checked(r: &ReplaceSource<BoxSource>) -> String {
 }
 
 impl ReplHist {
+  fn main_list(&self) -> Vec<ReplT> { self.steps.iter().filter_map(|s| if let Step::Mut(r, _) = s { Some(r.clone()) } else { None }).collect() }
+  fn side_list(&self) -> Option<Vec<ReplT>> {
+    let mut cur: Vec<ReplT> = vec![]; let mut side: Option<Vec<ReplT>> = None;
+    for s in &self.steps { match s { Step::Mut(r, _) => cur.push(r.clone()), Step::Fork => side = Some(cur.clone()), Step::MutSide(r, _) => if let Some(sd) = side.as_mut() { sd.push(r.clone()) }, _ => {} } }
+    side
+  }
   fn inner_tree(&self) -> T { if self.original { T::Orig(self.inner.clone(), "a.js".into()) } else { T::Raw(self.inner.clone()) } }
   /// replacement list after each step (the model is asked at every observation point and at the end)
   fn points(&self) -> Vec<Vec<ReplT>> {
-    let mut cur: Vec<ReplT> = vec![]; let mut pts = vec![];
-    for s in &self.steps { match s { Step::Mut(r, _) => cur.push(r.clone()), Step::Obs(_) | Step::CloneObserve(_) => pts.push(cur.clone()), Step::Clone => {} } }
+    let mut cur: Vec<ReplT> = vec![]; let mut side: Option<Vec<ReplT>> = None; let mut pts = vec![];
+    for s in &self.steps { match s {
+      Step::Mut(r, _) => cur.push(r.clone()), Step::Obs(_) | Step::CloneObserve(_) => pts.push(cur.clone()), Step::Clone => {}
+      Step::Fork => side = Some(cur.clone()),
+      Step::MutSide(r, _) => if let Some(sd) = side.as_mut() { sd.push(r.clone()) },
+      Step::ObsSide(_) => if let Some(sd) = &side { pts.push(sd.clone()) },
+    } }
     pts.push(cur);
+    if let Some(sd) = side { pts.push(sd); }
     pts
   }
 }
@@ -73,19 +91,34 @@ impl SimpleCase for ReplHist {
     let r = catch(|| {
       let mut out = vec![];
       let mut r = ReplaceSource::new(Ctx::default().build(&self.inner_tree()));
+      let mut side: Option<ReplaceSource<BoxSource>> = None;
+      fn apply(r: &mut ReplaceSource<BoxSource>, x: &ReplT, plain: bool) {
+        if plain && x.enforce == 1 { if x.start == x.end { r.insert(x.start, &x.content, x.name.as_deref()) } else { r.replace(x.start, x.end, &x.content, x.name.as_deref()) } }
+        else if x.start == x.end && plain { r.insert_with_enforce(x.start, &x.content, x.name.as_deref(), enforce_of(x.enforce)) }
+        else { r.replace_with_enforce(x.start, x.end, &x.content, x.name.as_deref(), enforce_of(x.enforce)) }
+      }
       for s in &self.steps {
         match s {
-          Step::Mut(x, plain) => {
-            if *plain && x.enforce == 1 { if x.start == x.end { r.insert(x.start, &x.content, x.name.as_deref()) } else { r.replace(x.start, x.end, &x.content, x.name.as_deref()) } }
-            else if x.start == x.end && *plain { r.insert_with_enforce(x.start, &x.content, x.name.as_deref(), enforce_of(x.enforce)) }
-            else { r.replace_with_enforce(x.start, x.end, &x.content, x.name.as_deref(), enforce_of(x.enforce)) }
-          }
+          Step::Mut(x, plain) => apply(&mut r, x, *plain),
+          Step::Fork => { side = Some(r.clone()); }
+          Step::MutSide(x, plain) => { if let Some(sd) = side.as_mut() { apply(sd, x, *plain); } }
+          Step::ObsSide(o) => { if let Some(sd) = &side { observe(sd, o); out.push("ok".to_string()); out.push(src_checked(sd)); } }
           Step::Obs(o) => { observe(&r, o); out.push("ok".to_string()); out.push(src_checked(&r)); }
           Step::Clone => { r = r.clone(); }
           Step::CloneObserve(o) => { let c = r.clone(); observe(&c, o); out.push("ok".to_string()); out.push(src_checked(&c)); }
         }
       }
       out.push("ok".to_string()); out.push(src_checked(&r));
+      if let Some(sd) = &side {
+        out.push("ok".to_string());
+        // two values derived from one another: equal exactly when their replacement lists are (seed S122), and then they hash alike
+        let want_eq = self.main_list() == self.side_list().unwrap_or_default();
+        let eq = r == *sd; let eq2 = *sd == r;
+        let h = |x: &ReplaceSource<BoxSource>| { let mut h = std::collections::hash_map::DefaultHasher::new(); x.hash(&mut h); h.finish() };
+        if eq != want_eq || eq2 != want_eq { out.push(format!("eq-after-divergence: a value and its clone, edited to {} replacement lists, compare {}", if want_eq { "the same" } else { "different" }, if eq { "equal" } else { "unequal" })); }
+        else if want_eq && h(&r) != h(sd) { out.push("eq-after-divergence: equal values hash differently".to_string()); }
+        else { out.push(src_checked(sd)); }
+      }
       out
     });
     match r { Ok(v) => out = v, Err(m) => { let n = self.reqs().len(); out = (0..n).map(|_| format!("panic {}", panic_kind(&m))).collect(); } }
@@ -97,6 +130,7 @@ impl SimpleCase for ReplHist {
       let got = &outs[2 * k + 1];
       if got.starts_with("panic") { v.push(finding("no-panic", got.clone())); break }
       if got.starts_with("views-disagree") { v.push(finding("views-coherent", format!("observation point {k}: {got}"))); break }
+      if got.starts_with("eq-after-divergence") { v.push(finding("eq-after-divergence", got.clone())); break }
       let want = apply_repls(self.inner.as_bytes(), rs);
       if *got != hx(&want) { v.push(finding("reference-model", format!("observation point {k}: source() {:?}, reference {:?}", unhx(got).map(|b| lossy(&b)), lossy(&want)))); break }
     }
@@ -111,7 +145,7 @@ impl SimpleCase for ReplHist {
   }
   fn stats(&self, _o: &[String], d: &mut BTreeMap<String, u64>) {
     *d.entry(format!("steps:{}", self.steps.len())).or_default() += 1;
-    for s in &self.steps { let k = match s { Step::Mut(r, _) => format!("mut:enforce{}", r.enforce), Step::Obs(o) => format!("obs:{:?}", o), Step::Clone => "clone".into(), Step::CloneObserve(_) => "clone-observe".into() }; *d.entry(k).or_default() += 1; }
+    for s in &self.steps { let k = match s { Step::Mut(r, _) => format!("mut:enforce{}", r.enforce), Step::Obs(o) => format!("obs:{:?}", o), Step::Clone => "clone".into(), Step::CloneObserve(_) => "clone-observe".into(), Step::Fork => "fork".into(), Step::MutSide(..) => "mut-side".into(), Step::ObsSide(_) => "obs-side".into() }; *d.entry(k).or_default() += 1; }
   }
   fn shrink(&self) -> Vec<Self> {
     let mut v = vec![];
@@ -141,6 +175,12 @@ pub fn gen(rng: &mut Rng, thorough: bool) -> ReplHist {
       6 | 7 => steps.push(Step::Obs(obs[rng.below(obs.len())].clone())),
       8 => steps.push(Step::Clone),
       _ => steps.push(Step::CloneObserve(obs[rng.below(obs.len())].clone())),
+    }
+    // two values derived from one another that both go on living: fork once, then edit and observe either
+    if rng.chance(6) {
+      if !steps.iter().any(|s| matches!(s, Step::Fork)) { steps.push(Step::Fork); }
+      else if rng.chance(2) { let r = loop { let mut v = gen_repls(rng, &GenCfg { max_repl: 3, ..cfg.clone() }, &inner); if let Some(x) = v.pop() { break x } }; steps.push(Step::MutSide(r, rng.chance(2))); }
+      else { steps.push(Step::ObsSide(obs[rng.below(obs.len())].clone())); }
     }
   }
   ReplHist { inner, original: rng.chance(2), steps }
